@@ -3,6 +3,8 @@ render noise, adversarial choice lists.  Construction, never rejection.
 (DESIGN.md section 2.2)"""
 from hypothesis import strategies as st
 
+from .common import HarnessError
+
 SIZES = {
     'quick': dict(n1=4, n2=3, n3=3, lmax=3),
     'thorough': dict(n1=5, n2=4, n3=4, lmax=4),
@@ -178,6 +180,12 @@ def option_sets(draw, inst, min_crit=0, max_crit=4, stab=None, pc=None, twopl=No
 def build_argv(opts, filename, na, bf=False):
     """Option set -> argv for Solver(args); flag order as drawn."""
     argv = []
+    for f in ('twopl', 'stab', 'pc'):
+        if bool(opts[f]) != (f in opts['order']):
+            raise HarnessError('option set inconsistent: %s=%r but order=%r'
+                               % (f, opts[f], opts['order']))
+    if sum(1 for x in opts['order'] if x.startswith('crit')) != len(opts['crit']):
+        raise HarnessError('option set inconsistent: criteria vs order')
     for fl in opts['order']:
         if fl == 'f':
             argv += ['-f', filename]
@@ -198,7 +206,10 @@ def ordered_criteria(opts):
     return [(n, list(e)) for n, p, e in sorted(opts['crit'], key=lambda c: c[1])]
 
 
-choice_lists = st.lists(st.integers(0, 2 ** 16), min_size=0, max_size=10)
+_CH = list(range(60))   # 60 = lcm(1..6): index = choice mod |O| is uniform for small |O|
+choice_lists = st.lists(st.sampled_from(_CH), min_size=0, max_size=10)
+salts = st.sampled_from(_CH)
+choice_lists_nonempty = st.lists(st.sampled_from(_CH), min_size=1, max_size=8)
 
 
 @st.composite
